@@ -5,6 +5,7 @@ import WcModel.Driver.TidyPath
 import WcModel.Driver.Lists
 import WcModel.Driver.Glob
 import WcModel.Driver.WcWalk
+import WcModel.Driver.WcWalkP
 import WcModel.Driver.Pathlib
 /-
   wcdriver: one request per line on stdin, one reply per line on stdout.
@@ -37,7 +38,10 @@ def dispatch (cmd : String) (args : List String) : Option String :=
       | none =>
         match Driver.WcWalk.handlers.lookup cmd with
         | some h => h args
-        | none => (Driver.Pathlib.handlers.lookup cmd).bind (fun h => h args)
+        | none =>
+          match Driver.WcWalkP.handlers.lookup cmd with
+          | some h => h args
+          | none => (Driver.Pathlib.handlers.lookup cmd).bind (fun h => h args)
 
 partial def loop (hin hout : IO.FS.Stream) : IO Unit := do
   let line ← hin.getLine
